@@ -371,9 +371,10 @@ class MechanicHarness(Harness):
                     else:
                         # what race() does after a failure (and what a cancelled race does): just the exit request
                         facade.tell(mech, th.ActorExitRequest())
-                    t_end = clock.now + 8.0
-                    system.call_at(t_end, lambda: None)
-                    wait(lambda: clock.now >= t_end, "shutdown")
+                    try:
+                        system.run_until_quiescent(180.0)
+                    except SimHang as e:
+                        outcome["hang"] = f"during shutdown: {e}"
                     drain_replies()
         finally:
             supplier.create, provisioner.local, launcher.ProcessLauncher, mechanic.load_team, metrics.InMemoryMetricsStore.flush = saved
